@@ -341,7 +341,7 @@ manifest = {
              'Genuine defects repaired in /repo are "fix:" commits listed in known_findings.json (status fixed; 31 of them); no '
              'known finding is left on a listed property. Beyond the 20 listed properties the specification covers twelve more '
              'components (growth checks ./check G01..G12, statements in growth.jsonl, DESIGN 0.7; their findings are recorded as '
-             'known under G0x and are not part of this manifest). seeded/ (127 independent property-breaking changes) and benign/ '
+             'known under G0x and are not part of this manifest). seeded/ (144 independent property-breaking changes) and benign/ '
              '(independent property-preserving changes) with tools/seed_matrix.py are the regression suite of the checks.',
 }
 for pid in ALL:
